@@ -267,6 +267,51 @@ func checkC01(rt *rapid.T, c c01case) {
 				rt.Fatalf("AutoResult column %d (%s): row %d differs (%d rows read, want %d)", i, c.cols[i].Kind.T.Name, j, len(vals), c.rows)
 			}
 		}
+
+		// (4c) copy-through: what was decoded into inferred columns (ColAuto wrappers, which
+		// forward state, Prepare and both encode paths) encodes again to the same block.
+		var in proto.Input
+		for _, rc := range res {
+			ci, ok := rc.Data.(proto.ColInput)
+			if !ok {
+				in = nil
+				break
+			}
+			in = append(in, proto.InputColumn{Name: rc.Name, Data: ci})
+		}
+		if in != nil {
+			for _, vectored := range []bool{false, true} {
+				var out []byte
+				err := safely(func() error {
+					if vectored {
+						var sink bytes.Buffer
+						w := proto.NewWriter(&sink, new(proto.Buffer))
+						if err := blk.WriteBlock(w, c.rev, in); err != nil {
+							return err
+						}
+						_, err := w.Flush()
+						out = sink.Bytes()
+						return err
+					}
+					var buf proto.Buffer
+					err := blk.EncodeBlock(&buf, c.rev, in)
+					out = buf.Buf
+					return err
+				})
+				if err != nil {
+					rt.Fatalf("re-encoding inferred columns %v (vectored=%v): %v", typeNames(c.cols), vectored, err)
+				}
+				d2 := &ref.Dec{B: out}
+				again, err := ref.DecodeBlock(d2, c.rev)
+				if err != nil || d2.Left() != 0 {
+					rt.Fatalf("re-encoded inferred columns %v (vectored=%v) do not decode by reference: %v, %d bytes left", typeNames(c.cols), vectored, err, d2.Left())
+				}
+				if err := ref.BlockEqual(model, again); err != nil {
+					rt.Fatalf("decode into inferred columns, then encode them again (vectored=%v): block differs: %v", vectored, err)
+				}
+			}
+			st.Label("auto-copy-through")
+		}
 	}
 
 	// (5) raw block (no block info) round trip.
@@ -440,5 +485,136 @@ func TestC01BigStrings(t *testing.T) {
 			rev: rapid.SampledFrom(blockRevs).Draw(rt, "rev"), info: ref.BlockInfo{BucketNum: -1}}
 		checkC01(rt, c)
 		stats.G().Label("big-string")
+	})
+}
+
+// Raw copy ("useful for copying from one source to another"): a block decoded into the
+// non-interpreting column types - ColRaw for fixed-width types, ColLowCardinalityRaw for
+// LowCardinality - and encoded again is byte-identical to what was read, whatever key width
+// the source used, through the buffered and the vectored path, also when the raw columns are
+// reused for a second block.
+func TestC01RawCopy(t *testing.T) {
+	st := stats.G()
+	var kinds []*gen.Kind
+	index := map[*gen.Kind]*gen.Kind{} // LowCardinality kind -> kind of its dictionary column
+	for _, k := range gen.Kinds {
+		switch {
+		case k.Shape == "X" && k.T.K == ref.KFixed && k.T.Width > 0:
+			kinds = append(kinds, k)
+		case k.Shape == "LowCardinality(X)" && k.T.K == ref.KLowCard:
+			el := k.T.Elem[0]
+			if ik, ok := gen.ByName[el.Name+"|X|"+k.Scalar]; ok && (el.K == ref.KFixed || el.K == ref.KString) && !el.JSON {
+				index[k] = ik
+				kinds = append(kinds, k)
+			}
+		}
+	}
+	if len(index) == 0 {
+		t.Fatal("harness: no LowCardinality kind with a catalogued dictionary type")
+	}
+	mkTargets := func(cols []colSpec) proto.Results {
+		var res proto.Results
+		for _, c := range cols {
+			if ik, ok := index[c.Kind]; ok {
+				res = append(res, proto.ResultColumn{Name: c.Name, Data: &proto.ColLowCardinalityRaw{Index: ik.New().Column()}})
+			} else {
+				res = append(res, proto.ResultColumn{Name: c.Name, Data: &proto.ColRaw{T: proto.ColumnType(c.Kind.T.Name), Size: c.Kind.T.Width}})
+			}
+		}
+		return res
+	}
+	rapid.Check(t, func(rt *rapid.T) {
+		rev := rapid.SampledFrom(blockRevs).Draw(rt, "rev")
+		ncols := rapid.IntRange(1, 3).Draw(rt, "ncols")
+		var ks []*gen.Kind
+		for i := 0; i < ncols; i++ {
+			ks = append(ks, kinds[rapid.IntRange(0, len(kinds)-1).Draw(rt, "kind")])
+		}
+		var res proto.Results
+		nblocks := rapid.IntRange(1, 3).Draw(rt, "blocks")
+		for bi := 0; bi < nblocks; bi++ {
+			rows := gen.RowCountWide().Draw(rt, "rows")
+			var cols []colSpec
+			for i, k := range ks {
+				cols = append(cols, colSpec{Name: fmt.Sprintf("c%d", i), Kind: k, Rows: gen.DrawRows(rt, k, rows)})
+			}
+			if res == nil {
+				res = mkTargets(cols)
+			}
+			bump := rapid.IntRange(0, 3).Draw(rt, "lc-key-bump")
+			e := &ref.Enc{NoMap: true, LCBump: bump}
+			ref.EncodeBlock(e, rev, refBlock(cols, ref.BlockInfo{BucketNum: -1}))
+			src := e.B
+			var b proto.Block
+			r := readerOf(src)
+			if err := safely(func() error { return b.DecodeBlock(r, rev, res) }); err != nil {
+				rt.Fatalf("block %d: DecodeBlock of %v into raw columns: %v", bi, typeNames(cols), err)
+			}
+			if !atEOF(r) {
+				rt.Fatalf("block %d: raw decode left bytes unread", bi)
+			}
+			var in proto.Input
+			allInput := true
+			for i, rc := range res {
+				if rc.Data.Rows() != rows {
+					rt.Fatalf("block %d: raw column %d (%s) reports %d rows, block has %d", bi, i, cols[i].Kind.T.Name, rc.Data.Rows(), rows)
+				}
+				if rc.Data.Type().Conflicts(proto.ColumnType(cols[i].Kind.T.Name)) {
+					rt.Fatalf("block %d: raw column %d reports type %q for %q", bi, i, rc.Data.Type(), cols[i].Kind.T.Name)
+				}
+				// Column level: the encoding of the raw column is the column's bytes in the source.
+				ce := &ref.Enc{NoMap: true, LCBump: bump}
+				if rows > 0 {
+					ref.EncodeState(ce, cols[i].Kind.T)
+					ref.EncodeColumn(ce, cols[i].Kind.T, cols[i].Rows)
+				}
+				var cb proto.Buffer
+				cb.PutRaw([]byte("junk"))
+				if se, ok := rc.Data.(proto.StateEncoder); ok && rows > 0 {
+					se.EncodeState(&cb)
+				}
+				if rows > 0 {
+					rc.Data.(interface{ EncodeColumn(*proto.Buffer) }).EncodeColumn(&cb)
+				}
+				if !bytes.Equal(cb.Buf[4:], ce.B) || string(cb.Buf[:4]) != "junk" {
+					rt.Fatalf("block %d: raw column %d (%s, %d rows, keys widened by %d) encodes to %x, source column is %x", bi, i, cols[i].Kind.T.Name, rows, bump, cb.Buf[4:], ce.B)
+				}
+				if ci, ok := rc.Data.(proto.ColInput); ok {
+					in = append(in, proto.InputColumn{Name: rc.Name, Data: ci})
+				} else {
+					allInput = false // ColRaw has no vectored path and cannot be block input
+				}
+			}
+			if !allInput {
+				st.Case(stats.Hash("rawcopy", src, rev, bi), rows > 0, nil)
+				continue
+			}
+			blk := proto.Block{Info: proto.BlockInfo{BucketNum: -1}, Columns: len(in), Rows: rows}
+			var buf proto.Buffer
+			if err := safely(func() error { return blk.EncodeBlock(&buf, rev, in) }); err != nil {
+				rt.Fatalf("block %d: EncodeBlock of raw columns: %v", bi, err)
+			}
+			if !bytes.Equal(buf.Buf, src) {
+				rt.Fatalf("block %d of %d (%v, %d rows, LowCardinality keys widened by %d): the raw copy differs from the source at byte %d\nsource %x\ncopy   %x",
+					bi+1, nblocks, typeNames(cols), rows, bump, firstDiff(buf.Buf, src), src, buf.Buf)
+			}
+			var sink bytes.Buffer
+			w := proto.NewWriter(&sink, new(proto.Buffer))
+			if err := safely(func() error {
+				if err := blk.WriteBlock(w, rev, in); err != nil {
+					return err
+				}
+				_, err := w.Flush()
+				return err
+			}); err != nil {
+				rt.Fatalf("block %d: WriteBlock of raw columns: %v", bi, err)
+			}
+			if !bytes.Equal(sink.Bytes(), src) {
+				rt.Fatalf("block %d of %d (%v, %d rows): the vectored raw copy differs from the source at byte %d", bi+1, nblocks, typeNames(cols), rows, firstDiff(sink.Bytes(), src))
+			}
+			st.Case(stats.Hash("rawcopy", src, rev, bi), rows > 0, func() any {
+				return map[string]any{"kind": "raw-copy", "types": typeNames(cols), "rows": rows, "rev": rev, "block_no": bi + 1, "lc_key_bump": bump}
+			})
+		}
 	})
 }
